@@ -503,7 +503,10 @@ pub fn c17(args: &Args, reg: &[TypeEntry], log: &mut Log) {
                     cleanup.push(Cleanup::RemoveDir(full));
                 }
                 Obstacle::AboveRoot => {
-                    faulted_op = Op { ty: op.ty, kind: OpKind::ExportAllTo(format!("{}x", "../".repeat(64))) };
+                    // one step above the root (the `..` that would pop the root itself), two, or many
+                    let depth = std::env::current_dir().map(|d| d.components().count().saturating_sub(1)).unwrap_or(8);
+                    let n = [depth + 1, depth + 1, depth + 2, 64][rng.below(4)];
+                    faulted_op = Op { ty: op.ty, kind: OpKind::ExportAllTo(format!("{}x", "../".repeat(n))) };
                     target_set.clear();
                 }
                 Obstacle::NotExportable => {
